@@ -719,3 +719,36 @@ func init() {
 			New: "\t\t\t\tval, err = jsontext.AppendUnquote(nil, val)\n\t\t\t\tif err != nil {\n\t\t\t\t\treturn newUnmarshalErrorAfter(dec, t, err)\n\t\t\t\t}\n\t\t\t\tif uo.Flags.Get(jsonflags.StringifyWithLegacySemantics) && string(val) == \"null\" {\n\t\t\t\t\tif !uo.Flags.Get(jsonflags.MergeWithLegacySemantics) {\n\t\t\t\t\t\tva.SetString(\"\")\n\t\t\t\t\t}\n\t\t\t\t\treturn nil\n\t\t\t\t}\n", Rule: "NULL-1"},
 	)
 }
+
+func init() {
+	addMutants(
+		Mutant{ID: "depth3-empty-slice-fast-path-ignores-depth", Props: []string{"C20", "C02"}, File: "arshal_default.go", Func: "makeSliceArshaler",
+			Old: "!xe.Tokens.Last.NeedObjectName() && !xe.Tokens.AtMaxDepth() {", New: "!xe.Tokens.Last.NeedObjectName() {", Rule: "DEPTH-3"},
+	)
+}
+
+func init() {
+	addMutants(
+		Mutant{ID: "ptr2-mismatch-object-lifted-twice", Props: []string{"C16"}, File: "jsontext/errors.go", Func: "wrapSyntacticError",
+			Old: "\t\t\t\tif !d.Tokens.Last.NeedObjectName() {\n\t\t\t\t\tptr = []byte(Pointer(ptr).Parent()) // problem is with parent object\n\t\t\t\t} // otherwise, ptr already points to the object itself\n", New: "\t\t\t\tptr = []byte(Pointer(ptr).Parent()) // problem is with parent object\n", Rule: "PTR-2"},
+	)
+}
+
+func init() {
+	addMutants(
+		// ---- round-l strengthening
+		Mutant{ID: "unsup1-marshaltofunc-not-skippable", Props: []string{"C17"}, File: "arshal_funcs.go", Func: "MarshalToFunc",
+			Old: "\t\tmaySkip: true,\n", New: "", Rule: "UNSUP-1"},
+		Mutant{ID: "guard2-consume-simple-string-inclusive-bound", Props: []string{"C20"}, File: "v1/indent.go", Func: "appendHTMLEscape",
+			Old: "i+2 < len(src)", New: "i+2 <= len(src)", Rule: "GUARD-2"},
+		Mutant{ID: "sharedval1-empty-slice-with-capacity", Props: []string{"C14", "C18"}, File: "arshal_default.go", Func: "makeSliceArshaler",
+			Old: "emptySlice := reflect.MakeSlice(t, 0, 0)", New: "emptySlice := reflect.MakeSlice(t, 0, 4)", Rule: "SHAREDVAL-1"},
+	)
+}
+
+func init() {
+	addMutants(
+		Mutant{ID: "within2-marshalto-mark-cleared-unconditionally", Props: []string{"C17"}, File: "arshal_methods.go", Func: "makeMethodArshaler",
+			Old: "\t\t\tif !wasWithin {\n\t\t\t\txe.Flags.Set(jsonflags.WithinArshalCall | 0)\n\t\t\t}\n", New: "\t\t\t_ = wasWithin\n\t\t\txe.Flags.Set(jsonflags.WithinArshalCall | 0)\n", Rule: "WITHIN-2"},
+	)
+}
